@@ -123,6 +123,25 @@ Proof.
   intros HI. unfold Dispatch.node_of. destruct (d_nodes d z) eqn:E; [apply HI; auto|apply new_node_ok].
 Qed.
 
+(* the dependency lists of a node only grow *)
+Definition all_grows (d d' : dstate) : Prop :=
+  forall z, incl (n_all_task (node_of d z)) (n_all_task (node_of d' z)) /\
+            incl (n_all_calc (node_of d z)) (n_all_calc (node_of d' z)).
+Lemma all_grows_refl d : all_grows d d.
+Proof. intro z. split; apply incl_refl. Qed.
+Lemma all_grows_trans d1 d2 d3 : all_grows d1 d2 -> all_grows d2 d3 -> all_grows d1 d3.
+Proof. intros A B z. destruct (A z), (B z). split; eapply incl_tran; eauto. Qed.
+Lemma all_grows_set_node d k nd :
+  incl (n_all_task (node_of d k)) (n_all_task nd) -> incl (n_all_calc (node_of d k)) (n_all_calc nd) ->
+  all_grows d (set_node d k nd).
+Proof.
+  intros A B z. destruct (N.eqb_spec z k) as [->|Hne].
+  - rewrite node_of_set_same. auto.
+  - rewrite node_of_set_other by auto. split; apply incl_refl.
+Qed.
+Lemma all_grows_queues d d' : d_nodes d' = d_nodes d -> all_grows d d'.
+Proof. intros E z. unfold Dispatch.node_of. rewrite E. split; apply incl_refl. Qed.
+
 (* ---------- _node_add_wait_run ---------- *)
 Definition wait_of (calc : bool) (nd : node) : list name := if calc then n_wcalc nd else n_wrun nd.
 
@@ -139,7 +158,8 @@ Record awr_rel (calc : bool) (d d' : dstate) (me : name) : Prop := {
   ar_other : forall z, z <> me ->
       n_pc (node_of d' z) = n_pc (node_of d z) /\ n_wrun (node_of d' z) = n_wrun (node_of d z);
   ar_queues : d_ready d' = d_ready d /\ d_waiting d' = d_waiting d /\ d_cur d' = d_cur d /\ d_torun d' = d_torun d;
-  ar_ex : forall z, d_nodes d z <> None -> d_nodes d' z <> None
+  ar_ex : forall z, d_nodes d z <> None -> d_nodes d' z <> None;
+  ar_all : all_grows d d'
 }.
 
 Lemma nodes_set_ex d k nd z : d_nodes d z <> None -> d_nodes (set_node d k nd) z <> None.
@@ -150,7 +170,7 @@ Proof.
 Qed.
 
 Lemma awr_rel_refl calc d me : awr_rel calc d d me.
-Proof. split; auto. Qed.
+Proof. split; auto. apply all_grows_refl. Qed.
 
 Lemma awr_rel_trans calc d1 d2 d3 me : awr_rel calc d1 d2 me -> awr_rel calc d2 d3 me -> awr_rel calc d1 d3 me.
 Proof.
@@ -167,6 +187,7 @@ Proof.
   - destruct (ar_queues _ _ _ _ A) as (a1 & a2 & a3 & a4).
     destruct (ar_queues _ _ _ _ B) as (b1 & b2 & b3 & b4). repeat split; congruence.
   - intros z Hz. apply (ar_ex _ _ _ _ B), (ar_ex _ _ _ _ A), Hz.
+  - eapply all_grows_trans; [apply (ar_all _ _ _ _ A)|apply (ar_all _ _ _ _ B)].
 Qed.
 
 Lemma process_calc_fields nd c s :
@@ -209,6 +230,24 @@ Proof.
   - destruct (H1 x) as [H|[H|[H|H]]]; rewrite ?in_app_iff in *; auto.
     destruct H; auto.
   - left. rewrite !in_app_iff. auto.
+Qed.
+
+Lemma fold_add_if_new_ext (l : list name) : forall a l0, exists ext, fold_left add_if_new l (a ++ l0) = a ++ ext.
+Proof.
+  induction l as [|x l IH]; intros a l0; simpl.
+  - exists l0. reflexivity.
+  - unfold add_if_new at 2. destruct (mem x (a ++ l0)).
+    + apply IH.
+    + rewrite <- app_assoc. apply IH.
+Qed.
+
+Lemma process_calc_incl nd c s :
+  incl (n_all_task nd) (n_all_task (process_calc nd c s)) /\
+  incl (n_all_calc nd) (n_all_calc (process_calc nd c s)).
+Proof.
+  unfold Dispatch.process_calc. destruct (calc_values_visible s); simpl; [|split; apply incl_refl].
+  destruct (fold_add_if_new_ext (t_calc_new_impl (get_task c)) (n_all_task nd) (t_calc_new_task (get_task c))) as [ext E].
+  rewrite E. split; apply incl_appl; apply incl_refl.
 Qed.
 
 Lemma node_okw_wait d nd wr wc :
@@ -286,6 +325,8 @@ Proof.
       * rewrite node_of_set_other by auto. auto.
     + simpl. auto.
     + intros z Hz. apply nodes_set_ex. unfold d1. apply nodes_set_ex. exact Hz.
+    + apply (all_grows_trans d d1); [unfold d1; apply all_grows_set_node; simpl; apply incl_refl|].
+      apply all_grows_set_node; unfold ndm; destruct calc; simpl; apply incl_refl.
     + left. rewrite node_of_set_same. unfold ndm, wait_of. destruct calc; simpl; apply addset_In; auto.
     + intros y. rewrite node_of_set_same. unfold ndm, wait_of. destruct calc; simpl; rewrite Hnd1; simpl;
         intros Hy; apply addset_In in Hy; destruct Hy; auto.
@@ -316,6 +357,10 @@ Proof.
     + intros z Hz. rewrite node_of_set_other by auto. auto.
     + simpl. auto.
     + intros z Hz. apply nodes_set_ex. exact Hz.
+    + apply all_grows_set_node; unfold ndm; fold nd0; destruct calc;
+        try (rewrite f7; apply incl_refl); try (rewrite f8; apply incl_refl).
+      * eapply incl_tran; [|apply (proj1 (process_calc_incl nd1 x (st_of d x)))]. rewrite f7. apply incl_refl.
+      * eapply incl_tran; [|apply (proj2 (process_calc_incl nd1 x (st_of d x)))]. rewrite f8. apply incl_refl.
     + right. exact Eu.
     + intros y. rewrite node_of_set_same. unfold ndm, wait_of. destruct calc.
       * rewrite g4, f4. auto.
@@ -380,11 +425,12 @@ Record step_rel (d d' : dstate) (me : name) : Prop := {
   sr_other : forall z, z <> me ->
       n_pc (node_of d' z) = n_pc (node_of d z) /\ n_wrun (node_of d' z) = n_wrun (node_of d z);
   sr_queues : d_ready d' = d_ready d /\ d_waiting d' = d_waiting d /\ d_cur d' = d_cur d /\ d_torun d' = d_torun d;
-  sr_ex : forall z, d_nodes d z <> None -> d_nodes d' z <> None
+  sr_ex : forall z, d_nodes d z <> None -> d_nodes d' z <> None;
+  sr_all : all_grows d d'
 }.
 
 Lemma step_rel_refl d me : step_rel d d me.
-Proof. split; auto. Qed.
+Proof. split; auto. apply all_grows_refl. Qed.
 
 Lemma step_rel_trans d1 d2 d3 me : step_rel d1 d2 me -> step_rel d2 d3 me -> step_rel d1 d3 me.
 Proof.
@@ -395,14 +441,18 @@ Proof.
   - destruct (sr_queues _ _ _ A) as (a1 & a2 & a3 & a4).
     destruct (sr_queues _ _ _ B) as (b1 & b2 & b3 & b4). repeat split; congruence.
   - intros z Hz. apply (sr_ex _ _ _ B), (sr_ex _ _ _ A), Hz.
+  - eapply all_grows_trans; [apply (sr_all _ _ _ A)|apply (sr_all _ _ _ B)].
 Qed.
 
 Lemma step_rel_of_awr calc d d' me : awr_rel calc d d' me -> step_rel d d' me.
-Proof. intros A. split; [apply (ar_st _ _ _ _ A)|apply (ar_other _ _ _ _ A)|apply (ar_queues _ _ _ _ A)|apply (ar_ex _ _ _ _ A)]. Qed.
+Proof. intros A. split; [apply (ar_st _ _ _ _ A)|apply (ar_other _ _ _ _ A)|apply (ar_queues _ _ _ _ A)|apply (ar_ex _ _ _ _ A)|apply (ar_all _ _ _ _ A)]. Qed.
 
-Lemma step_rel_set_node d me nd' : n_st nd' = st_of d me -> step_rel d (set_node d me nd') me.
+Lemma step_rel_set_node d me nd' :
+  n_st nd' = st_of d me ->
+  incl (n_all_task (node_of d me)) (n_all_task nd') -> incl (n_all_calc (node_of d me)) (n_all_calc nd') ->
+  step_rel d (set_node d me nd') me.
 Proof.
-  intros Hst. split.
+  intros Hst Ha Hb. split; [| | | |apply all_grows_set_node; auto].
   - intro x. apply st_set_node_same_st. exact Hst.
   - intros z Hz. rewrite node_of_set_other by auto. auto.
   - simpl. auto.
@@ -421,6 +471,7 @@ Proof.
       * rewrite node_of_set_other by auto. auto.
     + simpl. auto.
     + intros z Hz. apply nodes_set_ex. exact Hz.
+    + apply all_grows_set_node; unfold Dispatch.node_of; rewrite E; simpl; apply incl_refl.
 Qed.
 
 (* a task that was handed to the runner has been given a status before its generator is resumed *)
@@ -524,7 +575,7 @@ Proof.
 Qed.
 
 Lemma set_pc_rel d me p : step_rel d (set_pc d me p) me.
-Proof. unfold Dispatch.set_pc. apply step_rel_set_node. reflexivity. Qed.
+Proof. unfold Dispatch.set_pc. apply step_rel_set_node; [reflexivity|apply incl_refl|apply incl_refl]. Qed.
 
 Lemma set_pc_node d me p : node_of (set_pc d me p) me = nd_pc (node_of d me) p.
 Proof. unfold Dispatch.set_pc. apply node_of_set_same. Qed.
@@ -552,8 +603,8 @@ Proof.
       left. unfold calcs. apply sort_by_In. exact H. }
     apply (REC (set_node d me nd')); auto.
     + apply Inv_set_node; auto.
-    + apply step_rel_set_node. reflexivity.
-    + eapply Pre_step; [exact HP|apply step_rel_set_node; reflexivity|].
+    + apply step_rel_set_node; [reflexivity|apply incl_refl|apply incl_refl].
+    + eapply Pre_step; [exact HP|apply step_rel_set_node; [reflexivity|apply incl_refl|apply incl_refl]|].
       rewrite node_of_set_same. simpl. discriminate.
     + unfold resumable. rewrite node_of_set_same. simpl. discriminate.
   - (* PCalc *)
@@ -826,9 +877,10 @@ Record wake_rel (d d' : dstate) : Prop := {
   wr_pc : forall z, n_pc (node_of d' z) = n_pc (node_of d z);
   wr_cur : d_cur d' = d_cur d;
   wr_torun : d_torun d' = d_torun d;
-  wr_ex : forall z, d_nodes d z <> None -> d_nodes d' z <> None
+  wr_ex : forall z, d_nodes d z <> None -> d_nodes d' z <> None;
+  wr_all : all_grows d d'
 }.
-Lemma wake_rel_refl d : wake_rel d d. Proof. split; auto. Qed.
+Lemma wake_rel_refl d : wake_rel d d. Proof. split; auto. apply all_grows_refl. Qed.
 Lemma wake_rel_trans d1 d2 d3 : wake_rel d1 d2 -> wake_rel d2 d3 -> wake_rel d1 d3.
 Proof.
   intros A B. split.
@@ -837,10 +889,23 @@ Proof.
   - rewrite (wr_cur _ _ B). apply (wr_cur _ _ A).
   - rewrite (wr_torun _ _ B). apply (wr_torun _ _ A).
   - intros z Hz. apply (wr_ex _ _ B), (wr_ex _ _ A), Hz.
+  - eapply all_grows_trans; [apply (wr_all _ _ A)|apply (wr_all _ _ B)].
 Qed.
 
 Lemma Pre_wake d d' : wake_rel d d' -> Pre d -> Pre d'.
 Proof. intros R HP z Hz. rewrite (wr_st _ _ R). apply HP. rewrite <- (wr_pc _ _ R). exact Hz. Qed.
+
+Lemma wake_node_incl nd fin fs :
+  incl (n_all_task nd) (n_all_task (wake_node nd fin fs)) /\ incl (n_all_calc nd) (n_all_calc (wake_node nd fin fs)).
+Proof.
+  unfold Dispatch.wake_node.
+  destruct (parent_status_fields nd fin fs) as (f1 & f2 & f3 & f4 & f5 & f6 & f7 & f8 & f9). cbv zeta in *.
+  destruct (mem fin (n_wcalc nd)).
+  - destruct (process_calc_incl (nd_wait (parent_status nd fin fs) (rem fin (n_wrun (parent_status nd fin fs)))
+                                   (rem fin (n_wcalc (parent_status nd fin fs)))) fin fs) as [A B].
+    simpl in A, B. rewrite f7 in A. rewrite f8 in B. auto.
+  - simpl. rewrite f7, f8. split; apply incl_refl.
+Qed.
 
 (* queue discipline: a node sits in at most one of {current, ready, waiting}, once, and exists *)
 Record QInv (d : dstate) : Prop := {
@@ -872,7 +937,8 @@ Proof.
   assert (I1 : Inv d1) by (apply Inv_set_node; auto).
   assert (S1 : forall x, st_of d1 x = st_of d x) by (intro; apply st_set_node_same_st; exact Hst).
   assert (W1 : wake_rel d d1).
-  { split; auto; [|intros z Hz; apply nodes_set_ex; exact Hz]. intro z. unfold d1. destruct (N.eqb_spec z w) as [->|Hne].
+  { split; auto; [|intros z Hz; apply nodes_set_ex; exact Hz|apply all_grows_set_node; apply wake_node_incl].
+    intro z. unfold d1. destruct (N.eqb_spec z w) as [->|Hne].
     - rewrite node_of_set_same. exact Hpc.
     - rewrite node_of_set_other by auto. reflexivity. }
   destruct HQ as [Qn Qr Qw Qe].
@@ -901,7 +967,7 @@ Proof.
         -- apply Res1. apply HA. right. exact Hz.
         -- unfold resumable. change (node_of (set_waiting (set_ready d1 (d_ready d1 ++ [w])) (rem w (d_waiting d1))) w) with (node_of d1 w).
            unfold d1. rewrite node_of_set_same. rewrite Hpc. intros E. apply Hrdy; auto.
-    + destruct W1 as [a b c e f]. split; auto.
+    + destruct W1 as [a b c e f g]. split; auto.
   - split; [exact I1|]. split; [|split; [|exact W1]].
     + intros z Hz. apply Res1. apply HA. exact Hz.
     + split; simpl; auto. intros z Hz. apply nodes_set_ex. apply Qe. exact Hz.
@@ -945,10 +1011,12 @@ Lemma next_from_torun_spec l : forall d o d',
   (forall z, n_pc (node_of d' z) = n_pc (node_of d z) /\ n_wrun (node_of d' z) = n_wrun (node_of d z)) /\
   d_ready d' = d_ready d /\ d_cur d' = d_cur d /\ d_waiting d' = d_waiting d /\
   (forall z, d_nodes d z <> None -> d_nodes d' z <> None) /\
-  (forall x, o = Some x -> d_nodes d x = None /\ d_nodes d' x <> None).
+  (forall x, o = Some x -> d_nodes d x = None /\ d_nodes d' x <> None) /\
+  all_grows d d'.
 Proof.
   induction l as [|x r IH]; intros d o d' HI Hn; cbn [Dispatch.next_from_torun] in Hn.
-  - inversion Hn; subst. split; [apply (Inv_queues d); [reflexivity|exact HI]|]. simpl. repeat split; auto; discriminate.
+  - inversion Hn; subst. split; [apply (Inv_queues d); [reflexivity|exact HI]|]. simpl.
+    repeat split; auto; try discriminate; apply incl_refl.
   - pose proof (gen_node_Inv d None x HI) as I1.
     pose proof (gen_node_st tasks d None x) as S1.
     assert (F1 : forall z, n_pc (node_of (snd (gen_node d None x)) z) = n_pc (node_of d z) /\
@@ -965,22 +1033,28 @@ Proof.
     assert (N1 : fst (gen_node d None x) = GNew -> d_nodes d x = None /\ d_nodes (snd (gen_node d None x)) x <> None).
     { unfold Dispatch.gen_node. destruct (d_nodes d x) eqn:E; simpl; [discriminate|].
       intros _. split; auto. rewrite upd_same. discriminate. }
+    assert (G1 : all_grows d (snd (gen_node d None x))).
+    { unfold Dispatch.gen_node. destruct (d_nodes d x) eqn:E; simpl; try apply all_grows_refl.
+      apply all_grows_set_node; unfold Dispatch.node_of; rewrite E; simpl; apply incl_refl. }
     destruct (gen_node d None x) as [g d1] eqn:Eg. simpl in *.
     destruct g.
     + inversion Hn; subst. simpl. destruct Q1 as (q1 & q2 & q3).
       split; [apply (Inv_queues d1); [reflexivity|exact I1]|].
       split; auto. split; [apply F1|]. split; auto. split; auto. split; auto. split; auto.
-      intros z Ez. inversion Ez; subst. apply N1. reflexivity.
-    + destruct (IH d1 o d' I1 Hn) as (I2 & S2 & F2 & q1 & q2 & q3 & X2 & N2). destruct Q1 as (p1 & p2 & p3).
+      split; [intros z Ez; inversion Ez; subst; apply N1; reflexivity|].
+      eapply all_grows_trans; [exact G1|apply all_grows_queues; reflexivity].
+    + destruct (IH d1 o d' I1 Hn) as (I2 & S2 & F2 & q1 & q2 & q3 & X2 & N2 & G2). destruct Q1 as (p1 & p2 & p3).
       split; auto. split; [intro z; rewrite S2; apply S1|].
       split; [intro z; destruct (F2 z) as [a b]; destruct (F1 z) as [c e]; split; congruence|].
       split; [congruence|]. split; [congruence|]. split; [congruence|]. split; [intros z Hz; apply X2, X1, Hz|].
+      split; [|eapply all_grows_trans; eauto].
       intros z Ez. destruct (N2 z Ez) as [A B]. split; auto.
       destruct (d_nodes d z) eqn:E; auto. exfalso. assert (d_nodes d1 z <> None) by (apply X1; congruence). contradiction.
-    + destruct (IH d1 o d' I1 Hn) as (I2 & S2 & F2 & q1 & q2 & q3 & X2 & N2). destruct Q1 as (p1 & p2 & p3).
+    + destruct (IH d1 o d' I1 Hn) as (I2 & S2 & F2 & q1 & q2 & q3 & X2 & N2 & G2). destruct Q1 as (p1 & p2 & p3).
       split; auto. split; [intro z; rewrite S2; apply S1|].
       split; [intro z; destruct (F2 z) as [a b]; destruct (F1 z) as [c e]; split; congruence|].
       split; [congruence|]. split; [congruence|]. split; [congruence|]. split; [intros z Hz; apply X2, X1, Hz|].
+      split; [|eapply all_grows_trans; eauto].
       intros z Ez. destruct (N2 z Ez) as [A B]. split; auto.
       destruct (d_nodes d z) eqn:E; auto. exfalso. assert (d_nodes d1 z <> None) by (apply X1; congruence). contradiction.
 Qed.
@@ -990,7 +1064,7 @@ Definition PreX (d : dstate) (k : name) : Prop :=
   forall z, z <> k -> n_pc (node_of d z) = PAfterSelf -> st_of d z <> SNone.
 
 Definition disp_post (d d' : dstate) (y : dyield) : Prop :=
-  Inv d' /\ AllRes d' /\ QInv d' /\ (forall x, st_of d' x = st_of d x) /\
+  Inv d' /\ AllRes d' /\ QInv d' /\ (forall x, st_of d' x = st_of d x) /\ all_grows d d' /\
   match y with
   | DTask k => d_cur d' = Some k /\ deps_final d' k /\
                (n_pc (node_of d' k) = PDone -> setup_final d' k) /\
@@ -999,17 +1073,18 @@ Definition disp_post (d d' : dstate) (y : dyield) : Prop :=
   end.
 
 Lemma disp_post_st d0 d d' y :
-  (forall x, st_of d x = st_of d0 x) -> disp_post d d' y -> disp_post d0 d' y.
+  (forall x, st_of d x = st_of d0 x) -> all_grows d0 d -> disp_post d d' y -> disp_post d0 d' y.
 Proof.
-  intros E (A & B & Q & C & D). split; auto. split; auto. split; auto. split; auto.
-  intro x. rewrite C. apply E.
+  intros E G0 (A & B & Q & C & G & D). split; auto. split; auto. split; auto. split; [|split; auto].
+  - intro x. rewrite C. apply E.
+  - eapply all_grows_trans; eauto.
 Qed.
 
 Lemma disp_run_spec fuel : forall d y d',
   Inv d -> Pre d -> AllRes d -> QInv d -> disp_run fuel d = (y, d') -> disp_post d d' y.
 Proof.
   induction fuel as [|fuel IH]; intros d y d' HI HP HA HQ Hd; cbn [Dispatch.disp_run] in Hd.
-  { inversion Hd; subst. repeat (split; auto). }
+  { inversion Hd; subst. repeat (split; auto); apply incl_refl. }
   destruct HQ as [Qn Qr Qw Qe].
   destruct (d_cur d) as [me|] eqn:Ecur.
   - assert (HRme : resumable d me) by (apply HA; left; exact Ecur).
@@ -1026,7 +1101,7 @@ Proof.
       destruct (SN k eq_refl) as (Rk & Exk & Fresh).
       assert (Fr : forall z, In z (d_ready d) \/ In z (d_waiting d) \/ Some me = Some z -> z <> k)
         by (intros z Hz; apply Fresh; apply Qe; exact Hz).
-      apply (disp_post_st d (set_ready d1 (d_ready d1 ++ [k]))); [intro x; rewrite st_set_ready; apply (sr_st _ _ _ R1)|].
+      apply (disp_post_st d (set_ready d1 (d_ready d1 ++ [k]))); [intro x; rewrite st_set_ready; apply (sr_st _ _ _ R1)|eapply all_grows_trans; [apply (sr_all _ _ _ R1)|apply all_grows_queues; reflexivity]|].
       apply IH.
       * apply (Inv_queues d1); [reflexivity|exact I1].
       * intros z Hz. apply (P1 ltac:(discriminate) z). exact Hz.
@@ -1042,7 +1117,7 @@ Proof.
       * exact Hd.
     + (* wait *)
       apply (disp_post_st d (set_cur (set_waiting d1 (addset me (d_waiting d1))) None));
-        [intro x; apply (sr_st _ _ _ R1)|].
+        [intro x; apply (sr_st _ _ _ R1)|eapply all_grows_trans; [apply (sr_all _ _ _ R1)|apply all_grows_queues; reflexivity]|].
       apply IH.
       * apply (Inv_queues d1); [reflexivity|exact I1].
       * intros z Hz. apply (P1 ltac:(discriminate) z). exact Hz.
@@ -1062,11 +1137,11 @@ Proof.
       { intros z [Hz|Hz]; [rewrite q3 in Hz; inversion Hz; subst; apply (Q1 ltac:(discriminate))|].
         rewrite q1 in Hz. apply ResReady; exact Hz. }
       split. { split; rewrite ?q1, ?q2, ?q3; auto. all: try (intros z Hz; apply Ex1; destruct Hz as [Hz|[Hz|Hz]]; auto). }
-      split; [apply (sr_st _ _ _ R1)|]. split; [rewrite q3; reflexivity|]. split; auto. split; auto. split; auto.
+      split; [apply (sr_st _ _ _ R1)|]. split; [apply (sr_all _ _ _ R1)|]. split; [rewrite q3; reflexivity|]. split; auto. split; auto. split; auto.
       intros z Hz Hpc. rewrite (sr_st _ _ _ R1). apply HP.
       destruct (sr_other _ _ _ R1 z Hz) as [E _]. congruence.
     + (* generator exhausted *)
-      apply (disp_post_st d (set_cur d1 None)); [intro x; apply (sr_st _ _ _ R1)|].
+      apply (disp_post_st d (set_cur d1 None)); [intro x; apply (sr_st _ _ _ R1)|eapply all_grows_trans; [apply (sr_all _ _ _ R1)|apply all_grows_queues; reflexivity]|].
       apply IH.
       * apply (Inv_queues d1); [reflexivity|exact I1].
       * intros z Hz. apply (P1 ltac:(discriminate) z). exact Hz.
@@ -1080,21 +1155,21 @@ Proof.
       { intros z [Hz|Hz]; [rewrite q3 in Hz; inversion Hz; subst; apply (Q1 ltac:(discriminate))|].
         rewrite q1 in Hz. apply ResReady; exact Hz. }
       split. { split; rewrite ?q1, ?q2, ?q3; auto. all: try (intros z Hz; apply Ex1; destruct Hz as [Hz|[Hz|Hz]]; auto). }
-      split; [apply (sr_st _ _ _ R1)|]. apply P1. discriminate.
+      split; [apply (sr_st _ _ _ R1)|]. split; [apply (sr_all _ _ _ R1)|]. apply P1. discriminate.
     + inversion Hd; subst. split; [exact I1|]. split.
       { intros z [Hz|Hz]; [rewrite q3 in Hz; inversion Hz; subst; apply (Q1 ltac:(discriminate))|].
         rewrite q1 in Hz. apply ResReady; exact Hz. }
       split. { split; rewrite ?q1, ?q2, ?q3; auto. all: try (intros z Hz; apply Ex1; destruct Hz as [Hz|[Hz|Hz]]; auto). }
-      split; [apply (sr_st _ _ _ R1)|]. apply P1. discriminate.
+      split; [apply (sr_st _ _ _ R1)|]. split; [apply (sr_all _ _ _ R1)|]. apply P1. discriminate.
   - destruct (d_ready d) as [|x r] eqn:Er.
     + destruct (next_from_torun d (d_torun d)) as [o d1] eqn:En.
-      destruct (next_from_torun_spec _ d o d1 HI En) as (I1 & S1 & F1 & q1 & q2 & q3 & X1 & N1).
+      destruct (next_from_torun_spec _ d o d1 HI En) as (I1 & S1 & F1 & q1 & q2 & q3 & X1 & N1 & G1).
       rewrite Er in q1. rewrite Ecur in q2.
       assert (P1 : Pre d1).
       { intros z Hz. rewrite S1. apply HP. destruct (F1 z) as [E _]. congruence. }
       destruct o as [x|].
       * destruct (N1 x eq_refl) as [Nx Ex].
-        apply (disp_post_st d (set_cur d1 (Some x))); [intro z; apply S1|].
+        apply (disp_post_st d (set_cur d1 (Some x))); [intro z; apply S1|eapply all_grows_trans; [exact G1|apply all_grows_queues; reflexivity]|].
         apply IH; auto.
         -- apply (Inv_queues d1); [reflexivity|exact I1].
         -- intros z [Hz|Hz]; simpl in Hz.
@@ -1112,9 +1187,9 @@ Proof.
           split. { split; rewrite ?q1, ?q2, ?q3; auto; try constructor; try (intros z []).
                    all: try (intros; discriminate).
                    all: try (intros z [[]|[Hz|Hz]]; [|discriminate]; apply X1; apply Qe; auto). }
-          split; [exact S1|]. destruct Hy; subst; exact P1. }
+          split; [exact S1|]. split; [exact G1|]. destruct Hy; subst; exact P1. }
         destruct (is_nil (d_waiting d1)); inversion Hd; subst; apply Hpost; auto.
-    + apply (disp_post_st d (set_cur (set_ready d r) (Some x))); [reflexivity|].
+    + apply (disp_post_st d (set_cur (set_ready d r) (Some x))); [reflexivity|apply all_grows_queues; reflexivity|].
       inversion Qn; subst.
       apply IH; auto.
       * apply (Inv_queues d); [reflexivity|exact HI].
@@ -1134,7 +1209,7 @@ Theorem disp_send_spec fuel d p y d' :
 Proof.
   intros HI HP HA HQ Hp Hs. unfold Dispatch.disp_send in Hs.
   destruct (update_waiting_spec d p HI HA HQ Hp) as (I1 & A1 & Q1 & W1). cbv zeta in *.
-  apply (disp_post_st d (update_waiting d p)); [apply (wr_st _ _ W1)|].
+  apply (disp_post_st d (update_waiting d p)); [apply (wr_st _ _ W1)|apply (wr_all _ _ W1)|].
   eapply disp_run_spec; eauto. eapply Pre_wake; eauto.
 Qed.
 
